@@ -134,6 +134,7 @@ class Interp:
         self.live_exceptions = {}
         from . import models
         models.install(self)
+        models.install_strings(self)
 
     # ------------------------------------------------------------------ memory
     def alloc(self, size, kind, name=None):
